@@ -188,11 +188,21 @@ func LookupXpathFunction(
 
 var testedFunctionTable = make(map[string]bool)
 
+// Runs in validation mode note the functions they call, and machines
+// may be run concurrently.
+var testedMu sync.Mutex
+
 func markFunctionAsTested(name string) {
+	testedMu.Lock()
+	defer testedMu.Unlock()
 	testedFunctionTable[name] = true
 }
 
 func CheckAllFunctionsWereTested() error {
+	mu.Lock()
+	defer mu.Unlock()
+	testedMu.Lock()
+	defer testedMu.Unlock()
 	for name, _ := range xpathFunctionTable {
 		if _, ok := testedFunctionTable[name]; !ok {
 			return fmt.Errorf("Function '%s' has not been tested!", name)
